@@ -289,6 +289,18 @@ class FillPA(PathAnalysis):
 
 def _r4_c(prog: Program, res: Result) -> None:
     alter = ("processing", "alter_code")
+    # can alter_code return the text it was given?  (a `return <name>` where the name holds the unmodified first parameter)
+    alter_may_refuse = False
+    af = prog.funcs.get(alter)
+    if af is not None and af.posparams:
+        p0 = af.posparams[0]
+        holders = {p0} if not assignments(af, p0) else set()
+        for nm, defs in __import__("sa.defuse", fromlist=["bindings"]).bindings(af).items():
+            if len(defs) == 1 and isinstance(defs[0][1], ast.Name) and defs[0][1].id == p0:
+                holders.add(nm)
+        rets = [r for r in walk_own(af.node) if isinstance(r, ast.Return) and isinstance(r.value, ast.Name)]
+        # the last return is the result proper; an earlier return of a holder is a refusal
+        alter_may_refuse = any(r.value.id in holders for r in rets[:-1]) or (bool(rets) and rets[-1].value.id in holders and len(rets) > 1)
     for fn in prog.funcs.values():
         if not fn.posparams:
             continue
@@ -341,7 +353,11 @@ def _r4_c(prog: Program, res: Result) -> None:
                                 progress = True
                             elif entails(w.facts, Lit(f"filled({v.id}?)")):
                                 maybe = True
-                if progress:
+                if progress and alter_may_refuse:
+                    verdict_ok = False
+                    detail = ("alter_code can hand its input back (its result is rolled back when it does not parse or compile), so non-empty additions / removals no longer mean "
+                              "that the text changes: without a test `new text != text` the function calls itself again on the same text -> RecursionError")
+                elif progress:
                     detail = detail or "alter_code is given non-empty additions/removals on every path to the recursive call: the text changes"
                 elif maybe:
                     verdict_undecided = True
@@ -1637,7 +1653,7 @@ def _r4_h(prog: Program, res: Result) -> None:
     from .c03 import SafeText
     st = SafeText(prog)
     st.solve([f for f in prog.funcs.values() if f.mod.name == "processing" and f.posparams and not f.is_generator])
-    for m, q in (("processing", "_apply_rewrites"), ("processing", "_replace_nodes")):
+    for m, q in (("processing", "_apply_rewrites"), ("processing", "_replace_nodes"), ("processing", "alter_code")):
         fn = prog.func(m, q)
         own = fn.posparams[0]
         pa = ValidPA(prog, fn, term_hook=valid_hook(prog), summaries=st)
@@ -1691,6 +1707,11 @@ class ValidPA(PathAnalysis):
 from ..selftest import Variant  # noqa: E402
 
 VARIANTS = [
+    Variant("recursion-without-progress-test-after-a-refusable-edit", "FIRE", "fixes",
+            "            if new_source == source:\n                continue  # The change was refused\n\n            return move_before_loop(new_source)", "            return move_before_loop(new_source)", "R4.c"),
+    Variant("edited-text-parsed-before-it-is-validated", "FIRE", "processing",
+            "    # Nodes are put in and taken out line by line, which does not work out for every layout\n    if not core.is_valid_python(source):\n        return original_source\n\n    source = _substitute_original_strings(original_source, source)",
+            "    source = _substitute_original_strings(original_source, source)", "R4.h"),
     Variant("unbound-set-union-of-frozensets", "FIRE", "main", "        preserve = set().union(*used_names.values())", "        preserve = set.union(*used_names.values()) if used_names else set()", "R4.t"),
     Variant("unary-node-built-with-the-binary-operator", "FIRE", "fixes", "                        replacement = ast.UnaryOp(op=ast.USub(), operand=replacement)", "                        replacement = ast.UnaryOp(op=body_node.op, operand=replacement)", "R4.s"),
     Variant("boolop-built-with-a-comparison-operator", "FIRE", "symbolic_math", "                yield node, ast.BoolOp(op=ast.And(), values=values)", "                yield node, ast.BoolOp(op=ast.Eq(), values=values)", "R4.s"),
